@@ -456,3 +456,204 @@ class C06(Spec):
 
     def sample(self, case, res):
         return {'seed': case['seed'], 'cfg': case['cfg'], 'prog': case['prog'], 'results': repr(res.results)[:300]}
+
+
+from fractions import Fraction as _Fr  # noqa: E402
+
+
+@_register
+class C29(Spec):
+    check_id = 'C29'
+    family = 'int'
+    title = 'secure sorting and selection are correct for every input order'
+    technique = ('deterministic simulation (m>1 execution of the comparator network); 0-1 vectors enumerated for small n '
+                 '(0-1 principle), seeded random lists with duplicates beyond')
+    quick = {'runs': 1600, 'wall': 80}
+    thorough = {'runs': 200000, 'wall': 900}
+    OPS = ('sorted', 'sorted_rev', 'seclist_sort', 'min_max', 'argmin', 'argmax', 'sorted_rows', 'argmin_rows')
+    rule = ('seeds below the enumeration bound map to (n, 0-1 vector, operation) and enumerate all 2^n vectors for n<=6 '
+            '(quick) / n<=9 (thorough) per operation; remaining seeds draw random lists (n<=12, duplicates, negatives) of '
+            'secure integers or fixed-point numbers; distinct = sha256(configuration, program, tape); non-trivial = m>=2, n>=2')
+
+    def _enum(self, tier):
+        nmax = 6 if tier == 'quick' else 9
+        out = []
+        for n in range(0, nmax + 1):
+            for v in range(1 << n):
+                out.append((n, v))
+        return out
+
+    def _stmts(self, op, n):
+        if op == 'sorted':
+            return [['sorted', ['y'], ['x'], {}]], ['y']
+        if op == 'sorted_rev':
+            return [['sorted', ['y'], ['x'], {'reverse': True}]], ['y']
+        if op == 'seclist_sort':
+            return [['seclist_sort', ['y'], ['x'], {}]], ['y']
+        if op == 'min_max':
+            return [['min_max', ['a', 'b'], ['x'], {}], ['minl', ['c'], ['x'], {}], ['maxl', ['d'], ['x'], {}]], ['a', 'b', 'c', 'd']
+        if op == 'argmin':
+            return [['argmin', ['i', 'v'], ['x'], {}]], ['i', 'v']
+        if op == 'argmax':
+            return [['argmax', ['i', 'v'], ['x'], {}]], ['i', 'v']
+        raise ValueError(op)
+
+    def make_case(self, seed, tier):
+        rng = random.Random(f'C29/{seed}')
+        enum = self._enum(tier)
+        ops6 = self.OPS[:6]
+        i = seed % 1000003
+        cfg = sample_cfg(rng, tier, m_min=2, m_max=3 if i < len(enum) * len(ops6) else None)
+        if i < len(enum) * len(ops6):
+            n, v = enum[i // len(ops6)]
+            op = ops6[i % len(ops6)]
+            vals = [(v >> j) & 1 for j in range(n)]
+            if n == 0 and op not in ('sorted', 'sorted_rev', 'seclist_sort'):
+                op = 'sorted'
+            if n == 0:
+                # empty list: nothing to input; sorted([]) == []
+                prog = {'family': 'int', 'type': {'l': 8}, 'stmts': [['const', ['z'], [], {'value': 0}], ['mklist', ['x'], [], {}],
+                                                                     [op if op != 'sorted_rev' else 'sorted', ['y'], ['x'], {}],
+                                                                     ['mklist', ['w'], ['z'], {}]], 'outputs': ['w']}
+                return {'family': 'int', 'cfg': cfg.to_json(), 'prog': prog, 'seed': seed}
+            st, outs = self._stmts(op, n)
+            prog = intfam.gen_fixed(cfg, rng.choice((8, 16)), [('x', vals)], st, outs, sender=rng.randrange(cfg.m))
+            return {'family': 'int', 'cfg': cfg.to_json(), 'prog': prog, 'seed': seed}
+        n = rng.randint(1, 12 if tier != 'quick' else 9)
+        op = rng.choice(self.OPS)
+        if rng.random() < 0.3 and op in ops6[:2] + ops6[3:]:
+            td = {'l': 24, 'f': 8}
+            vals = [_Fr(rng.randint(-40, 40) * rng.choice((1, 1, 3)), rng.choice((1, 2, 4, 256))) for _ in range(n)]
+            # keep integrality uniform over the list (a list operation takes one flag for the whole list)
+            st, outs = self._stmts(op, n)
+            prog = fxpfam.gen_fixed(cfg, td, vals, st, outs, sender=rng.randrange(cfg.m))
+            return {'family': 'fxp', 'cfg': cfg.to_json(), 'prog': prog, 'seed': seed}
+        l = rng.choice((8, 16, 32))
+        lim = (1 << (l - 2)) - 1
+        pool = [rng.randint(-lim, lim) for _ in range(max(1, n // 2))] + [0, 1, -1]
+        vals = [rng.choice(pool) for _ in range(n)]
+        if op in ('sorted_rows', 'argmin_rows'):
+            keys = rng.sample(range(-lim, lim), n)
+            pay = [rng.randint(-lim, lim) for _ in range(n)]
+            if op == 'sorted_rows':
+                st = [['sorted_rows', ['k', 'v'], ['x', 'p'], {'reverse': rng.random() < 0.3}]]
+                outs = ['k', 'v']
+            else:
+                st = [['argmin_rows', ['i', 'k', 'v'], ['x', 'p'], {'max': rng.random() < 0.5}]]
+                outs = ['i', 'k', 'v']
+            prog = intfam.gen_fixed(cfg, l, [('x', keys), ('p', pay)], st, outs, sender=rng.randrange(cfg.m))
+        else:
+            st, outs = self._stmts(op, n)
+            prog = intfam.gen_fixed(cfg, l, [('x', vals)], st, outs, sender=rng.randrange(cfg.m))
+        return {'family': 'int', 'cfg': cfg.to_json(), 'prog': prog, 'seed': seed}
+
+    def nontrivial(self, case, res):
+        return case['cfg']['m'] >= 2 and res.bytes > 0 and len(case['prog']['stmts']) >= 2
+
+    def evidence_extra(self, agg, tier):
+        enum = self._enum(tier)
+        return {'exhaustive': False,
+                'enumerated_part': f'all 0-1 vectors of length 0..{6 if tier == "quick" else 9} x 6 operations = '
+                                   f'{len(enum) * 6} cases, covered iff evaluations >= that number (seeds are consecutive)'}
+
+
+@_register
+class C30(Spec):
+    check_id = 'C30'
+    family = 'int'
+    title = 'bit-level oblivious building blocks are correct for all inputs'
+    technique = ('deterministic simulation (m>1 execution); inputs enumerated exhaustively for short bit vectors / small n, '
+                 'seeded random beyond')
+    quick = {'runs': 2400, 'wall': 80}
+    thorough = {'runs': 300000, 'wall': 900}
+    rule = ('seeds below the enumeration bound enumerate: add_bits over all pairs of bit vectors of length <= 3 (quick) / 5, '
+            'find over all bit vectors of length <= 5 / 8 x targets x 7 output modes, unit_vector for all 0<=a<n, n<=9 / 17, '
+            'to_bits/from_bits/trailing_zeros over all values of SecInt(4..6) ; the rest is seeded random; '
+            'non-trivial = m>=2 and bytes exchanged')
+
+    MODES = ('default', 'e-1', 'elast', 'raw', 'pow2', 'pow2cs', 'pair')
+
+    def _enum(self, tier):
+        q = tier == 'quick'
+        out = []
+        for n in range(1, (3 if q else 5) + 1):
+            for x in range(1 << n):
+                for y in range(1 << n):
+                    out.append(('add_bits', n, x, y))
+        for n in range(1, (5 if q else 8) + 1):
+            for x in range(1 << n):
+                for a in (0, 1):
+                    out.append(('find', n, x, a))
+        for n in range(1, (9 if q else 17) + 1):
+            for a in range(n):
+                out.append(('unit_vector', n, a, 0))
+        for l in ((4, 5) if q else (4, 5, 6, 7)):
+            for v in range(-(1 << (l - 1)), 1 << (l - 1)):
+                out.append(('bits', l, v, 0))
+        return out
+
+    def make_case(self, seed, tier):
+        rng = random.Random(f'C30/{seed}')
+        enum = self._enum(tier)
+        i = seed % 1000003
+        cfg = sample_cfg(rng, tier, m_min=2, m_max=3 if i < len(enum) else None)
+        G = intfam.gen_fixed
+        snd = rng.randrange(cfg.m)
+        if i < len(enum):
+            kind, n, x, y = enum[i]
+        else:
+            kind = rng.choice(('add_bits', 'find', 'find_any', 'unit_vector', 'bits', 'gcp2', 'add_bits_pub'))
+            n = rng.randint(1, 10)
+            x, y = rng.randrange(1 << n), rng.randrange(1 << n)
+        bits = intfam._bits
+        if kind == 'add_bits':
+            prog = G(cfg, 8, [('x', bits(x, n)), ('y', bits(y, n))], [['add_bits', ['z'], ['x', 'y'], {}]], ['z'], snd)
+        elif kind == 'add_bits_pub':
+            prog = G(cfg, 8, [('x', bits(x, n))], [['add_bits_pub', ['z'], ['x'], {'y': bits(y, n)}]], ['z'], snd)
+        elif kind == 'find':
+            mode = self.MODES[(i // 2) % len(self.MODES)] if i < len(enum) else rng.choice(self.MODES)
+            a = y & 1
+            nout = 2 if mode in ('raw', 'pair') else 1
+            outs = [f'r{j}' for j in range(nout)]
+            if rng.random() < 0.5:
+                prog = G(cfg, 16, [('x', bits(x, n))], [['find', outs, ['x'], {'a': a, 'mode': mode}]], outs, snd)
+            else:   # secret target bit
+                prog = G(cfg, 16, [('x', bits(x, n)), ('a', a)], [['find', outs, ['x', 'a'], {'mode': mode}]], outs, snd)
+        elif kind == 'find_any':
+            l = 16
+            vals = [rng.randint(-5, 5) for _ in range(n)]
+            a = rng.choice(vals + [7])
+            mode = rng.choice(('default', 'e-1', 'raw'))
+            nout = 2 if mode == 'raw' else 1
+            outs = [f'r{j}' for j in range(nout)]
+            prog = G(cfg, l, [('x', vals), ('a', a)], [['find', outs, ['x', 'a'], {'mode': mode, 'bits': False}]], outs, snd)
+        elif kind == 'unit_vector':
+            if i >= len(enum):
+                n = rng.randint(1, 20)
+                x = rng.randrange(n)
+            prog = G(cfg, 16, [('a', x)], [['unit_vector', ['u'], ['a'], {'n': n}]], ['u'], snd)
+        elif kind == 'bits':
+            if i >= len(enum):
+                l = rng.choice((8, 12, 16, 32))
+                v = rng.choice((0, 1, -1, (1 << (l - 1)) - 1, -(1 << (l - 1)), rng.randint(-(1 << (l - 1)), (1 << (l - 1)) - 1)))
+            else:
+                l, v = n, x
+            k = rng.choice((None, None, 1, l // 2, l))
+            st = [['to_bits', ['b'], ['a'], {'l': k}], ['trailing_zeros', ['tz'], ['a'], {'l': rng.choice((None, l, max(1, l // 2)))}]]
+            outs = ['b', 'tz']
+            if v >= 0 and k is None:
+                st.append(['from_bits', ['c'], ['b'], {}])
+                outs.append('c')
+            prog = G(cfg, l, [('a', v)], st, outs, snd)
+        else:  # gcp2
+            l = rng.choice((8, 12, 16))
+            lim = (1 << (l - 1)) - 1
+            a = rng.randint(-lim, lim) << rng.randint(0, 3)
+            b = rng.randint(-lim, lim) << rng.randint(0, 3)
+            a = max(-lim, min(lim, a)) or 2
+            b = max(-lim, min(lim, b))
+            prog = G(cfg, l, [('a', a), ('b', b)], [['gcp2', ['g'], ['a', 'b'], {'l': rng.choice((None, l))}]], ['g'], snd)
+        return {'family': 'int', 'cfg': cfg.to_json(), 'prog': prog, 'seed': seed}
+
+    def evidence_extra(self, agg, tier):
+        return {'enumerated_part': f'{len(self._enum(tier))} enumerated cases (covered iff evaluations >= that number)'}
